@@ -73,17 +73,31 @@ static struct MIR_context h_ctx_obj;
 static struct MIR_module h_module = {NULL, "m", {NULL, NULL}, {NULL, NULL}, 0};
 static MIR_var_t h_vars_data[16] = {{MIR_T_I64, "a", 0}, {MIR_T_I64, "b", 0}, {MIR_T_F, "f", 0}};
 static VARR (MIR_var_t) h_vars_varr = {3, 16, h_vars_data, &h_alloc};
+static struct func_regs h_func_regs;
+#ifdef H_GLOBAL /* the function also has one global variable g tied to hard register r12 (register number 4, as new_func_reg numbers it) */
+static MIR_var_t h_gvars_data[8] = {{MIR_T_I64, "g", 0}};
+static VARR (MIR_var_t) h_gvars_varr = {1, 8, h_gvars_data, &h_alloc};
+static reg_desc_t h_rd_data[24] = {{MIR_T_I64, 0, NULL, NULL}, {MIR_T_I64, H_REG_A, "a", NULL}, {MIR_T_I64, H_REG_B, "b", NULL}, {MIR_T_F, H_REG_F, "f", NULL}, {MIR_T_I64, 4, "g", "r12"}};
+static VARR (reg_desc_t) h_rd_varr = {5, 24, h_rd_data, &h_alloc};
+static HTAB (size_t) h_name2rdn = {4, 4, 0, &h_func_regs, name2rdn_eq, NULL, &h_alloc, {1, 1, 1, 1}, {1, 2, 3, 4}};
+static HTAB (size_t) h_hrn2rdn = {1, 1, 0, &h_func_regs, hrn2rdn_eq, NULL, &h_alloc, {1}, {4}};
+static HTAB (size_t) h_reg2rdn = {4, 4, 0, &h_func_regs, reg2rdn_eq, NULL, &h_alloc, {1, 1, 1, 1}, {1, 2, 3, 4}};
+#else
 static reg_desc_t h_rd_data[24] = {{MIR_T_I64, 0, NULL, NULL}, {MIR_T_I64, H_REG_A, "a", NULL}, {MIR_T_I64, H_REG_B, "b", NULL}, {MIR_T_F, H_REG_F, "f", NULL}};
 static VARR (reg_desc_t) h_rd_varr = {4, 24, h_rd_data, &h_alloc};
-static struct func_regs h_func_regs;
 static HTAB (size_t) h_name2rdn = {3, 3, 0, &h_func_regs, name2rdn_eq, NULL, &h_alloc, {1, 1, 1}, {1, 2, 3}};
 static HTAB (size_t) h_hrn2rdn = {0, 0, 0, &h_func_regs, hrn2rdn_eq, NULL, &h_alloc, {0}, {0}};
 static HTAB (size_t) h_reg2rdn = {3, 3, 0, &h_func_regs, reg2rdn_eq, NULL, &h_alloc, {1, 1, 1}, {1, 2, 3}};
+#endif
 static struct func_regs h_func_regs = {&h_rd_varr, &h_name2rdn, &h_hrn2rdn, &h_reg2rdn};
 static struct MIR_item h_func_item_obj;
 static MIR_type_t h_res_types[1] = {MIR_T_I64};
 static struct MIR_func h_func_obj = {.name = "fn", .func_item = &h_func_item_obj, .nres = 0, .nargs = 1,
-                                     .res_types = h_res_types, .vars = &h_vars_varr, .internal = &h_func_regs};
+                                     .res_types = h_res_types, .vars = &h_vars_varr, .internal = &h_func_regs,
+#ifdef H_GLOBAL
+                                     .global_vars = &h_gvars_varr,
+#endif
+};
 static struct MIR_item h_func_item_obj = {.module = &h_module, .item_type = MIR_func_item, .u = {.func = &h_func_obj}};
 /* string table: the register names and the temporary names the generator can create are interned already */
 #define H_S(n, s) {n, {sizeof (s), s}}
@@ -114,6 +128,9 @@ static void h_state (void) {
   h_func_item = MIR_new_func_arr (ctx, "fn", 0, NULL, 1, &arg);
   H_ASSERT (MIR_new_func_reg (ctx, h_func_item->u.func, MIR_T_I64, "b") == H_REG_B, "replay state: reg b");
   H_ASSERT (MIR_new_func_reg (ctx, h_func_item->u.func, MIR_T_F, "f") == H_REG_F, "replay state: reg f");
+#ifdef H_GLOBAL
+  H_ASSERT (MIR_new_global_func_reg (ctx, h_func_item->u.func, MIR_T_I64, "g", "r12") == 4, "replay state: global reg g");
+#endif
   curr_func = NULL; /* as after MIR_finish_func (which would append a ret and renumber nothing else) */
 #endif
   h_func = h_func_item->u.func;
@@ -294,7 +311,10 @@ static void h_check_restored (MIR_context_t ctx, int first_temp) {
     if (i + 1 == h_n) H_ASSERT (DLIST_TAIL (MIR_insn_t, h_func->insns) == h_orig[i], "the list ends with the original last insn");
   }
   H_ASSERT (DLIST_HEAD (MIR_insn_t, h_func->original_insns) == NULL && DLIST_TAIL (MIR_insn_t, h_func->original_insns) == NULL, "original_insns is empty again");
-  H_ASSERT (VARR_LENGTH (MIR_var_t, h_func->vars) == 3 && h_func->original_vars_num == 3, "the variable array is back to its length");
+  H_ASSERT (VARR_LENGTH (MIR_var_t, h_func->vars) == 3, "the variable array is back to its length (no generator-made local is left)");
+#ifdef H_GLOBAL
+  H_ASSERT (h_func->global_vars != NULL && VARR_LENGTH (MIR_var_t, h_func->global_vars) == 1 && MIR_reg (ctx, "g", h_func) == 4, "the global variable is untouched");
+#endif
   H_ASSERT (VARR_GET (MIR_var_t, h_func->vars, 0).type == MIR_T_I64 && VARR_GET (MIR_var_t, h_func->vars, 2).type == MIR_T_F
               && strcmp (VARR_GET (MIR_var_t, h_func->vars, 1).name, "b") == 0, "the declared variables are untouched");
   for (int k = 0; k < 2; k++)
